@@ -176,9 +176,10 @@ Print Assumptions C16_set_name_stores_argument.
 
 (* ---- names assigned through an element handle (ModelElement.name setter, rename) ---- *)
 (* the name in the model graph is always documented and changes exactly when the call succeeds *)
-Theorem C16_element_name_in_model : forall cls r m old s h g e,
-  lookup cls name_rules = Some (r, m) -> re_lang r old -> elem_set_name cls old s = ((h, g), e) ->
-  re_lang r g /\ (e = None -> h = s /\ g = s /\ re_lang r s) /\ (e <> None -> g = old /\ ~ re_lang r s).
+Theorem C16_element_name_in_model : forall cls r m old s taken h g e,
+  lookup cls name_rules = Some (r, m) -> re_lang r old -> elem_set_name cls old s taken = ((h, g), e) ->
+  re_lang r g /\ (e = None -> h = s /\ g = s /\ re_lang r s) /\
+  (e <> None -> g = old /\ (~ re_lang r s \/ (name_set_checks_unique = true /\ taken = true))).
 Proof. exact elem_name_graph. Qed.
 Print Assumptions C16_element_name_in_model.
 
